@@ -86,7 +86,10 @@ pub struct SendTransactionsProofV1Reader<'a> { pub v1_uncles: &'a Vec<Byte32>, p
 impl<'a> SendTransactionsProofV1Reader<'a> {
     // (molecule: the V1 view may only be taken of a table that really has the two extra fields, see SendBlocksProofV1Reader)
     #[verifier::external_body]
-    pub fn new_unchecked(s: RawSlice) -> (r: SendTransactionsProofV1Reader<'a>) requires s.extra >= 2 { unimplemented!() }
+    pub fn new_unchecked(s: RawSlice) -> (r: SendTransactionsProofV1Reader<'a>) requires s.extra >= 2, s.v1_ok { unimplemented!() }
+    #[verifier::external_body]
+    pub fn from_compatible_slice(s: RawSlice) -> (r: core::result::Result<SendTransactionsProofV1Reader<'a>, MolError>)
+        ensures r is Ok ==> s.v1_ok && s.extra >= 2, s.extra < 2 ==> r is Err { unimplemented!() }
     pub fn blocks_uncles_hash(&self) -> (r: Byte32VecReader<'a>) ensures r.items == self.v1_uncles { Byte32VecReader { items: self.v1_uncles } }
     pub fn blocks_extension(&self) -> (r: BytesOptVecReader<'a>) ensures r.items == self.v1_exts { BytesOptVecReader { items: self.v1_exts } }
 }
